@@ -16,23 +16,20 @@
     set of a virtual method contains its invoker's symbol EVEN WHEN the method has a block of its own:
     that is the behaviour of the unchanged code and the reason `C03_vfunc_own_block_exclusive_full` is
     refuted by `C03_vfunc_own_block_counterexample` (reported finding).
-  * C03_rename_symmetric: function symbols have pairwise distinct, non-empty GI names (`NameEnv`; the
-    attributes carry names, not symbols) and every function carries at most one rename-to request
-    (one block per symbol).  It is a theorem about the AST state.  For the WRITTEN attributes the full
-    statement is refuted by `C03_rename_written_counterexample` (`a: (rename-to a)`, reported finding);
-    `C03_rename_written_partial` adds the hypothesis that no function is asked to rename to itself.
-    (Chains a→b→c are refused in either processing order since /repo 9b2e314 and are covered.)
+  * C03_rename_symmetric / C03_rename_written: function symbols have pairwise distinct, non-empty GI
+    names (`NameEnv`; the attributes carry names, not symbols) and every function carries at most one
+    rename-to request (one block per symbol).  The first is about the AST state, the second about the
+    attributes the writer emits; both are full statements (chains are refused in either processing
+    order since /repo 9b2e314, a request naming its own function since 3c17261).
   * C03_mapping_*: the annotation carries the option it needs (otherwise the real code raises
-    IndexError, which the model reproduces as `.error`), and for `version` the element kind is one
-    whose writer calls `_append_version` (`WKind.hasVersion`: everything except alias and
-    callback-holding fields — reported finding, `C03_mapping_since_counterexample` /
-    `C03_mapping_since_partial`).  An element documented by two blocks (type block +
-    SECTION block, virtual method + invoker) shows the later block's value: the theorems are stated
-    per application of a block.
+    IndexError, which the model reproduces as `.error`).  `version` is written for every element kind
+    (since /repo 10a3eea also for aliases and callback-holding fields).  An element documented by two
+    blocks (type block + SECTION block, virtual method + invoker) shows the later block's value: the
+    theorems are stated per application of a block.
   * C03_mapping_signal is about MainTransformer + GIRWriter.  Between the two IntrospectablePass
     compares the named emitter with the signal and may clear it (not modelled, outside this
-    property's anchors): the harness oracle judges that step on the real GIR (two reported findings
-    at that site: IndexError with one parameter, unfounded refusal with two or more).
+    property's anchors): the harness oracle judges that step on the real GIR (the emitter must be
+    written when return type and parameter types agree, refused with a warning when they do not).
   * C03_accessor_inferred_getter_is_chosen speaks about one property's visit of
     `_pair_property_accessors` (`pairOne`); the methods' set/get-property state before the visit is
     arbitrary.  No further hypotheses.
@@ -108,10 +105,13 @@ theorem C03_writer_tables :
         some ["name", "c:type", "c:symbol-prefix", "copy-function", "free-function"]
     ∧ Gen.IdentAnn.writerTags.lookup "_write_generic" =
         some ["attribute", "doc", "doc-version", "doc-deprecated", "doc-stability", "source-position"]
+    -- every writer that appends the generic attributes appends the version too (both branches of _write_field)
     ∧ (Gen.IdentAnn.writerCalls.filter (fun p => !p.2.contains "_append_version" && p.2.contains "_append_node_generic")).map (·.1)
-        = ["_write_alias"]
+        = []
     ∧ Gen.IdentAnn.writerCalls.lookup "_write_field" =
-        some ["_append_node_generic", "_write_generic", "_append_version", "_append_node_generic", "_write_generic"] := by
+        some ["_append_version", "_append_node_generic", "_write_generic", "_append_version", "_append_node_generic",
+              "_write_generic"]
+    ∧ Gen.IdentAnn.writerCalls.lookup "_write_alias" = some ["_append_version", "_append_node_generic", "_write_generic"] := by
   decide
 
 /-- the statement-by-statement shape of the two functions the model mirrors as folds
@@ -131,6 +131,8 @@ theorem C03_source_shape :
           "    rename_to = rename_to[0]",
           "    target = self._namespace.get_by_symbol(rename_to)",
           "    if not target:",
+          "        pass",
+          "    elif target is node:",
           "        pass",
           "    elif target.shadowed_by:",
           "        pass",
@@ -337,31 +339,16 @@ theorem C03_mapping_skip (f : Bool) (e e' : Elem) (b : Block) (k : WKind) (i : B
   have F := applyAnnotated_fields h
   exact w_introspectable (by rw [F.skip, hs, Bool.or_true])
 
-/-- what the statement says about `Since: v`: version="v" on the documented element, whatever its kind -/
-def C03_mapping_since_full : Prop :=
-  ∀ (f : Bool) (e e' : Elem) (b : Block) (t : Tag) (k : WKind) (i : Bool) (sh sb : Option Str),
-    applyAnnotated f e (some b) = .ok e' → b.since = some t →
-    ∀ c cs, t.value = some (c :: cs) → ("version".toList, c :: cs) ∈ writeAttrs k i e' sh sb
-
-/-- witness: `Since: 1.5` on a typedef alias — `_write_alias` never calls `_append_version` (the same
-    holds for a field holding a callback, `WKind.callbackField`) -/
-theorem C03_mapping_since_counterexample : ¬ C03_mapping_since_full := by
-  intro h
-  have := h false Elem.fresh _ { since := some { value := some "1.5".toList } } { value := some "1.5".toList }
-    .alias true none none rfl rfl '1' ".5".toList rfl
-  revert this
-  decide
-
-/-- `Since: v: text` ↦ version="v" (where the element's writer emits versions) and <doc-version> -/
-theorem C03_mapping_since_partial (f : Bool) (e e' : Elem) (b : Block) (t : Tag) (k : WKind) (i : Bool) (sh sb : Option Str)
+/-- `Since: v: text` ↦ version="v" and <doc-version>, on every element kind (every element writer
+    calls `_append_version`, aliases and callback-holding fields included since /repo 10a3eea) -/
+theorem C03_mapping_since (f : Bool) (e e' : Elem) (b : Block) (t : Tag) (k : WKind) (i : Bool) (sh sb : Option Str)
     (h : applyAnnotated f e (some b) = .ok e') (ht : b.since = some t) :
-    (∀ c cs, t.value = some (c :: cs) → k.hasVersion = true →
-        ("version".toList, c :: cs) ∈ writeAttrs k i e' sh sb)
+    (∀ c cs, t.value = some (c :: cs) → ("version".toList, c :: cs) ∈ writeAttrs k i e' sh sb)
     ∧ (∀ c cs, t.description = some (c :: cs) → ("doc-version".toList, c :: cs) ∈ (writeChildren e').2) := by
   have F := applyAnnotated_fields h
   constructor
-  · intro c cs hv hk
-    exact w_version hk (by rw [F.version, ht]; simp [tagValue, setIf, hv, truthyS])
+  · intro c cs hv
+    exact w_version (by rw [F.version, ht]; simp [tagValue, setIf, hv, truthyS])
   · intro c cs hd
     exact w_children.2.1 (by rw [F.versionDoc, ht]; simp [tagDesc, setIf, hd, truthyS])
 
@@ -588,7 +575,7 @@ theorem C03_mapping_rename (nameOf : Str → Option Str) (src tgt fn gn : Str) (
     cases gn with
     | nil => exact absurd rfl hgn
     | cons g gs =>
-      simp [renameFold, renameStep, RState.init, wShadows, wShadowedBy, hs, ht, truthyS, hne]
+      simp [renameFold, renameStep, RState.init, wShadows, wShadowedBy, hs, ht, truthyS, hne, hne']
 
 /-! ### C03_rename_symmetric -/
 
@@ -632,29 +619,15 @@ theorem C03_rename_symmetric (nameOf : Str → Option Str) (env : NameEnv nameOf
     obtain ⟨s, _, hs, _, _⟩ := inv.b _ _ h
     exact ⟨s, hs⟩
 
-/-- the same statement about the attributes the WRITER emits (`shadowed-by` wins over `shadows`) -/
-def C03_rename_written_full : Prop :=
-  ∀ (nameOf : Str → Option Str), NameEnv nameOf → ∀ reqs : List (Str × Str), (reqs.map (·.1)).Nodup →
-    ∀ s t fn gn, nameOf s = some fn → nameOf t = some gn →
-      (wShadows (renameFold nameOf reqs) s = some gn ↔ wShadowedBy (renameFold nameOf reqs) t = some fn)
-
-/-- witness: `a: (rename-to a)`.  The function ends up with shadows = shadowed_by = its own name;
-    the writer's `elif` emits shadowed-by="a" and NOT shadows="a". -/
-theorem C03_rename_written_counterexample : ¬ C03_rename_written_full := by
-  intro h
-  have := h abcNames abcNames_env [("a".toList, "a".toList)] (by decide)
-    "a".toList "a".toList "a".toList "a".toList (by decide) (by decide)
-  revert this
-  decide
-
-/-- the written attributes are symmetric when no function is asked to rename to itself — chains
-    (`a: (rename-to b)`, `b: (rename-to c)`) included, in either processing order -/
-theorem C03_rename_written_partial (nameOf : Str → Option Str) (env : NameEnv nameOf) (reqs : List (Str × Str))
-    (hnd : (reqs.map (·.1)).Nodup) (hself : ∀ r ∈ reqs, r.1 ≠ r.2) :
+/-- the same statement about the attributes the WRITER emits (`shadowed-by` wins over `shadows` in
+    `_write_function_common`): for any number of competing, dangling, chained, circular or
+    self-naming requests the written pair is mutually consistent -/
+theorem C03_rename_written (nameOf : Str → Option Str) (env : NameEnv nameOf) (reqs : List (Str × Str))
+    (hnd : (reqs.map (·.1)).Nodup) :
     ∀ s t fn gn, nameOf s = some fn → nameOf t = some gn →
       (wShadows (renameFold nameOf reqs) s = some gn ↔ wShadowedBy (renameFold nameOf reqs) t = some fn) := by
   have inv := renameFold_inv env reqs hnd
-  have noboth := renameFold_noboth env reqs hnd hself
+  have noboth := renameFold_noboth env reqs hnd
   have hw1 : ∀ s, wShadows (renameFold nameOf reqs) s = (renameFold nameOf reqs).shadows s := by
     intro s
     unfold wShadows
@@ -795,7 +768,8 @@ example : ∃ e', applyProperty exBlocks "FooBar".toList "size".toList = .ok e'
     ∧ (writeChildren e').2 = [("doc-version".toList, "new".toList)] := by
   refine ⟨_, rfl, ?_, ?_⟩ <;> decide
 example : applyCallable true Elem.fresh (some { anns := [(annFinishFunc, [])] }) = .error .indexError := by decide
-example : WKind.alias.hasVersion = false ∧ WKind.callbackField.hasVersion = false ∧ WKind.function.hasVersion = true := by
+example : ("version".toList, "1.5".toList) ∈ writeAttrs .alias true { version := some "1.5".toList } none none
+    ∧ ("version".toList, "1.5".toList) ∈ writeAttrs .callbackField true { version := some "1.5".toList } none none := by
   decide
 
 -- rename-to: three functions compete for one target, one request dangles, one is circular
@@ -818,12 +792,11 @@ example :
     wShadows st "b".toList = some "c".toList ∧ wShadowedBy st "c".toList = some "b".toList
     ∧ st.shadows "a".toList = none ∧ st.shadowedBy "b".toList = none := by
   decide
--- the hypotheses of C03_rename_written_partial hold for the chain; the self request is what it excludes
-example : ∀ r ∈ ([("a".toList, "b".toList), ("b".toList, "c".toList)] : List (Str × Str)), r.1 ≠ r.2 := by decide
+-- a request naming its own function is refused; a later request for the same target still succeeds
 example :
-    let st := renameFold abcNames [("a".toList, "a".toList)]
-    st.shadows "a".toList = some "a".toList ∧ st.shadowedBy "a".toList = some "a".toList
-    ∧ wShadows st "a".toList = none ∧ wShadowedBy st "a".toList = some "a".toList := by
+    let st := renameFold abcNames [("a".toList, "a".toList), ("b".toList, "a".toList)]
+    st.shadows "a".toList = none ∧ wShadowedBy st "a".toList = some "b".toList
+    ∧ wShadows st "b".toList = some "a".toList := by
   decide
 
 -- accessors: two getter candidates for a boolean property, in either order get_active wins and
